@@ -1,3 +1,3 @@
-import Infretis.Model.RepexProto
+import Infretis.Model.RepexRestartNow
 
-def main : IO Unit := Infretis.Repex.repexMain
+def main : IO Unit := Infretis.Repex.c06Main
